@@ -31,6 +31,7 @@ LEVEL_TEXT = (
     "pickle and json themselves is trusted."
     ' (R9) a suffix slice `a[-k:]` on the save path needs k proven non-zero (k = 0 selects everything); the SQLite save executes no SELECT / UPDATE (whole-row replacement only).'
     " (R10) the attributes the non-persisted grid is rebuilt from (bounds, precision) are private copies of the caller's arrays; (R4b) no text writer below the save appends to or updates a file in place (plumbing-independent); the sampler id table, rebuilt on restore, is numbered in first-seen order, never in set-iteration order (shared with C18). Columns / keys bound to constants (format or library version) are read as metadata, and configuration that the constructor stores unchanged and the restore receives from its own caller (like the model) counts as re-supplied, not as missing."
+    ' Objects that travel by pickle use the default protocol (no __getstate__ / __setstate__ hooks, C05-R2c); the frame read from the results file is not repaired or filtered (dropna, fillna, round, ...); the Calibrator constructor - which the restore goes through - calls no state-changing method on the scheduler / samplers / loss it receives (C05-R2g).'
 )
 TECHNIQUE = "composition of extracted positional/keyword/key maps + writer/reader table agreement + attribute-type reachability + CFG must-pass-through"
 
